@@ -26,15 +26,19 @@ package badger
 // context; a failing body fails the call (DB.Update then discards the batch).
 //@ func (*Manager).RunTransaction
 //@   requires ctx: ctx != nil
-//@   requires m: m != nil
+//@   requires wf: m != nil
 //@   modifies *
 //@   ensures once:    world.fnCalls == old(world.fnCalls) + 1
 //@   ensures intxn:   txnOf(world.fnCtx) != nil || world.fnCtx == ctx
 //@   ensures verdict: world.fnErr != nil ==> result != nil
 
+// Provider.DB is what the repositories see; the only implementation is Manager.DB, and the refinement
+// (Manager.DB's contract implies this one) is checked where internal/di hands the manager to a repository.
 //@ iface Provider.DB
-//@   trusted
+//@   params ctx
+//@   requires ctx: ctx != nil
 //@   ensures nonnil: result != nil
+//@   ensures intx: txnOf(ctx) != nil ==> typeis(result, transaction) && unbox(result, transaction).Txn == txnOf(ctx)
 
 //@ iface QueryManager.GetAll
 //@   trusted
